@@ -20,7 +20,8 @@ Structural(e) ==
     /\ ~e.crash
     /\ e.err \in {"none", "EmptyLabel", "CannotDeriveETldPlus1", "InvalidPublicSuffix"}
     /\ (~e.empty => e.ps \in 1..e.n)                  \* the suffix is label-aligned
-    /\ (e.empty => e.err # "none")                     \* empty labels are rejected
+    /\ (e.empty => e.err # "none")                     \* empty labels are rejected: no eTLD+1 ...
+    /\ ((e.empty /\ e.n > 1) => ~e.etld)               \* ... and not an effective TLD (the empty string itself is left open)
     /\ (e.err = "none" => e.e1 = e.ps + 1 /\ e.e1 <= e.n)
     /\ (e.err # "none" => e.e1 = 0)
 
